@@ -90,12 +90,12 @@ def flow(tier, seed, only=None):
         "yield site of every step, per-thread outputs, post-quiescence observation (get_node/labels/nodes_by_label/get_edge/edges_from/edges_to/"
         "id counters; primary set and three RDF indexes as bags; epochs/tx ids; allocated() after every step + region counters; recovered log) "
         "compared with the model on the same schedule; oracle = cross-checks and equality with some sequential order, evaluated in Coq. "
-        "hook-free stress phases (OS scheduler): create-only ids/visibility, begin/commit epochs, allocate/drop limit and accounting, "
+        "set_node_property (indexed key) and rotating-log programs likewise; hook-free stress phases (OS scheduler): create-only ids/visibility, begin/commit epochs, allocate/drop limit and accounting, "
         "log completeness, disjoint-entity consistency, deadlock searches.  non-trivial = two threads touch a common entity; "
         "distinct = distinct (kind, programs, schedule)")
     sched = [c for c in cases if c["k"].endswith("-sched")]
     chk.coverage["schedules_run"] = len(sched)
-    chk.coverage["hooks"] = info[0]["impl"] if info else "?"
+    chk.coverage["run_info"] = info[0]["impl"] if info else "?"
     chk.coverage["samples"] = [{"kind": c["k"], "input": c["in"][:300], "impl": c["impl"][:400]} for c in cases[0:3] + cases[200:203]]
     chk.coverage["trusted_base"] = TRUSTED
     chk.coverage["harness_seconds"] = round(dt, 1)
